@@ -15,14 +15,21 @@ RULE = ('flat cases: a data set of n sorted entries (group key, start, DNA seque
         'those; values under STRANDED windows (strand symbols + - . , a . or + window placed over a non-palindromic signal) and their '
         'mean(axis=0); arithmetic on the streamed pileup (30 expressions: - ** // % and comparisons with the plain value on the left '
         'and on the right, node-with-node in both orders) queried by get_data / sum / histogram / values under windows; '
-        'get_reverse_complement as a streamable function without reduction. '
+        'windows around the interval starts in every keyword form (get_windows(flank=0..3), get_windows(window_size=1..6), odd and even): '
+        'the windows, the values under them, their mean(axis=0); keyword/positional forms of bincount(minlength=), histogram(bins=edges | '
+        'bins, range positional | keywords), mean(axis=None|0|1), count_kmers(k=, axis=None), merged(distance=), clip(), '
+        'get_location(where=) compared streamed vs in-memory; ONE data set whose single chunk holds 1,100,015 k-mers (k=1, run-length '
+        'encoded reads) in two chunkings, as one chunk and in memory; get_reverse_complement as a streamable function without reduction. '
         'non-trivial = more than one chunk and some cut falls inside a group (flat) / inside a chromosome (genome)')
 EXHAUSTIVE = {'quick': False, 'thorough': False}
 TIE = ('translator+correspondence: translate/gen_c11.py regenerates the loop conditions, slice bounds, counter updates, '
        'component-wise additions, change-point comparison, shortcut test, group bounds and buffer-index tests from the source '
        '(Gen/C11.v), Bridge/C11.v proves them equal to the model kernels (theorem C11_source_tie); chunk_entries, chunk_lines, the streamable reductions, groupby+join_groupbys, iter_chromosomes walk and '
        'the computation-graph pull machine are evaluated inside Coq on the same chunking as the library')
-ASSUMPTIONS = ['arithmetic on tracks: intermediate GenomicArrayNodes each create an own chromosome-name stream node; the model keeps one '
+ASSUMPTIONS = ['keyword-form sweep (case kind kw): merged / clip / get_location belong to C08/C10; there the check only compares the '
+               'streamed with the in-memory observation (no model side)',
+               'the size-threshold case is evaluated by Coq on the expanded 1.1-million-element list (about 1 s per evaluation)',
+               'arithmetic on tracks: intermediate GenomicArrayNodes each create an own chromosome-name stream node; the model keeps one '
                '(node 6) — it only feeds get_data with the chromosome name',
                'np.histogram with integer data and exactly representable edges (bins divides hi-lo, or bins a power of two) '
                'bins by floor((x-lo)*bins/(hi-lo)) with the last edge inclusive (checked against the library on every case)',
@@ -54,6 +61,8 @@ EXPRS = [
 ]
 COMPARISONS = ('gt', 'lt', 'ge', 'le', 'eq', 'ne')
 EXPR_HIST = (4, -2, 6)
+WARGS = [['flank', 0], ['flank', 1], ['flank', 2], ['flank', 3], ['window_size', 1], ['window_size', 2], ['window_size', 3],
+         ['window_size', 4], ['window_size', 5], ['window_size', 6]]
 
 
 # ----------------------------------------------------------------------------- generation
@@ -144,7 +153,11 @@ def _gen(sizes, a, b, sa, sb, kind='gen'):
 
 
 def _n_of(c):
-    return len(c['entries']) if c['kind'] == 'flat' else (sum(c['sizes']) if c['kind'] == 'rechunk' else len(c['a']))
+    if c['kind'] == 'big':
+        return 3
+    if c['kind'] in ('flat', 'kw'):
+        return len(c['entries'])
+    return sum(c['sizes']) if c['kind'] == 'rechunk' else len(c['a'])
 
 
 def generate(tier, seed):
@@ -213,8 +226,23 @@ def generate(tier, seed):
                     c = _gen(sizes, a, b, sa, sb, kind='genexpr')
                     c['exprs'] = [EXPRS[(len(cases) + 5 * j) % len(EXPRS)] for j in range(4)]
                     cases.append(c)
+                    # windows around the interval starts, in every keyword form (flank=, window_size= odd and even)
+                    c = _gen(sizes, a, b, sa, sb, kind='genwin')
+                    c['wargs'] = [WARGS[(len(cases) + 3 * j) % len(WARGS)] for j in range(3)]
+                    cases.append(c)
     # small cases first
-    order = dict(rechunk=0, flat=1, gen=2, genmean=3, gensum=4, gensum0=5, genstrand=6, genstrandmean=7, genexpr=8)
+    # --- keyword forms of the flat reductions and of the streamed interval operations (observation equality)
+    for rep in range(3 if quick else 20):
+        n = rng.randint(3, 9)
+        ds = _dataset(rng, n)
+        sizes_, a_, b_ = _genome_data(rng, rng.randint(1, 4), True)
+        cases.append(dict(kind='kw', entries=ds, sizes=random_composition(rng, n, 0.5), gsizes=sizes_, a=a_,
+                          sa=random_composition(rng, len(a_), 0.5)))
+    # --- ONE data set with a chunk of more than 10^6 k-mers (k = 1): run-length encoded reads, two chunkings
+    big_reads = [[[0, 400000], [1, 300000]], [[2, 250000], [3, 150003]], [[0, 1], [1, 1], [2, 1], [3, 1]] * 3]
+    cases.append(dict(kind='big', reads=big_reads, sizes=[1, 1, 1]))          # every chunk below the block size
+    cases.append(dict(kind='big', reads=big_reads, sizes=[2, 1]))             # first chunk 1,100,003 values
+    order = dict(rechunk=0, flat=1, kw=1, big=1, gen=2, genmean=3, gensum=4, gensum0=5, genstrand=6, genstrandmean=7, genexpr=8, genwin=9)
     cases.sort(key=lambda c: (order[c['kind']], _n_of(c), len(c['sa'] if 'sa' in c else c['sizes'])))
     return cases
 
@@ -393,6 +421,8 @@ def _observe_gen(case):
     own = dict(genmean='mean0', gensum='sumall', gensum0='sum0')
     if case['kind'] in ('genstrand', 'genstrandmean'):
         return _observe_stranded(case, genome, names, ta, ma, sa, ragged, ratios)
+    if case['kind'] == 'genwin':
+        return _observe_windows(case, genome, idx, sa, ma, ragged, ratios)
     if case['kind'] == 'genexpr':
         return _observe_expr(case, genome, ta, tb, sa, sb, ma, mb, track_rows, mask_rows, ragged)
     out = {}
@@ -434,6 +464,130 @@ def _observe_stranded(case, genome, names, ta, ma, sa, ragged, ratios):
             except Exception as e:
                 r.append(_err(e))
         out[name] = r
+    return out
+
+
+def _observe_windows(case, genome, idx, sa, ma, ragged, ratios):
+    import numpy as np
+    import bionumpy as bnp
+
+    def iv_rows(w):
+        d = w.get_data() if hasattr(w, 'get_data') else w
+        ch = d.chromosome
+        names_ = ch.tolist() if hasattr(ch, 'tolist') and not hasattr(ch, 'encoding') else [x.to_string() for x in ch]
+        return [list(r) for r in zip([idx[str(x)] for x in names_], np.asarray(d.start).tolist(), np.asarray(d.stop).tolist())]
+    out = {'wruns': []}
+    for key, val in case['wargs']:
+        kw = {key: val}
+
+        def streamed(q):
+            gi = sa()
+            if q == 'windows':
+                return iv_rows(bnp.compute(gi.get_location('start').get_windows(**kw)))
+            v = gi.get_pileup()[gi.get_location('start').get_windows(**kw)]
+            return ragged(bnp.compute(v)) if q == 'values' else ratios(bnp.compute(np.mean(v, axis=0)))
+
+        def memory(q):
+            w = ma.get_location('start').get_windows(**kw)
+            if q == 'windows':
+                return iv_rows(w)
+            v = ma.get_pileup()[w]
+            return ragged(v) if q == 'values' else ratios(np.mean(v, axis=0))
+        for q in ('windows', 'values', 'mean0'):
+            r = []
+            for f in (streamed, memory):
+                try:
+                    r.append(f(q))
+                except Exception as ex:
+                    r.append(_err(ex))
+            out['wruns'].append([[key, val], q, r[0], r[1]])
+    return out
+
+
+def _observe_big(case):
+    import bionumpy as bnp
+    from bionumpy.streams import NpDataclassStream
+    from bionumpy.datatypes import SequenceEntry
+    from bionumpy.sequence import count_kmers
+    reads = [''.join(DNA[x] * n for x, n in r) for r in case['reads']]
+    table = SequenceEntry(['r%d' % i for i in range(len(reads))], reads)
+
+    def counts(sizes):
+        st = NpDataclassStream(iter(_cut(table, sizes)), dataclass=SequenceEntry)
+        return [int(x) for x in count_kmers(st.sequence, 1).counts]
+    out = {}
+    for name, f in (('stream', lambda: counts(case['sizes'])), ('single', lambda: counts([len(reads)])),
+                    ('mem', lambda: [int(x) for x in count_kmers(table.sequence, 1).counts])):
+        try:
+            out[name] = f()
+        except Exception as e:
+            out[name] = _err(e)
+    return out
+
+
+def _observe_kw(case):
+    """keyword / positional forms of the streamed operations; each item: [label, streamed, in-memory] as lists of int lists"""
+    import numpy as np
+    import bionumpy as bnp
+    from bionumpy.streams import BnpStream, NpDataclassStream
+    from bionumpy.datatypes import Interval
+    from bionumpy.sequence import count_kmers
+    ents = case['entries']
+    x = np.array([e[1] for e in ents])
+    m2 = np.array([[e[1], e[0]] for e in ents])
+    seqs = bnp.as_encoded_array([e[2] for e in ents], bnp.DNAEncoding)
+
+    def st(obj):
+        return BnpStream(iter(_cut(obj, case['sizes'])))
+
+    def fl(v):
+        return [int(a) for a in np.asarray(v).ravel()]
+
+    def rat(v):
+        return [z for a in np.asarray(v, dtype=float).ravel() for z in (_ratio(a) or [0, 0])]
+    sizes = case['gsizes']
+    names = ['chr%d' % (i + 1) for i in range(len(sizes))]
+    idx = {n: i for i, n in enumerate(names)}
+    genome = bnp.Genome.from_dict(dict(zip(names, sizes)))
+    ta = Interval([names[c] for c, _, _ in case['a']], [a for _, a, _ in case['a']], [b for _, _, b in case['a']])
+
+    def sa():
+        return genome.get_intervals(NpDataclassStream(iter(_cut(ta, case['sa'])), dataclass=Interval))
+    ma = genome.get_intervals(ta)
+
+    def iv_rows(w):
+        d = w.get_data() if hasattr(w, 'get_data') else w
+        ch = d.chromosome
+        names_ = ch.tolist() if hasattr(ch, 'tolist') and not hasattr(ch, 'encoding') else [c.to_string() for c in ch]
+        return [[idx[str(c)], int(a), int(b)] for c, a, b in zip(names_, np.asarray(d.start).tolist(), np.asarray(d.stop).tolist())]
+    edges = [0, 2, 4, 8, 12]
+    items = [
+        ('bincount(minlength=15)', lambda: [fl(bnp.bincount(st(x), minlength=15))], lambda: [fl(np.bincount(x, minlength=15))]),
+        ('histogram(bins=edges)', lambda: [fl(a) for a in bnp.histogram(st(x), bins=edges)], lambda: [fl(a) for a in np.histogram(x, bins=edges)]),
+        ('histogram(x, 4, (0, 8))', lambda: [fl(bnp.histogram(st(x), 4, (0, 8))[0])], lambda: [fl(np.histogram(x, 4, (0, 8))[0])]),
+        ('histogram(range=, bins=)', lambda: [fl(bnp.histogram(st(x), range=(1, 10), bins=3)[0])], lambda: [fl(np.histogram(x, range=(1, 10), bins=3)[0])]),
+        ('mean(axis=None)', lambda: [rat(bnp.mean(st(x), axis=None))], lambda: [rat(np.mean(x, axis=None))]),
+        ('mean(2-D, axis=0)', lambda: [rat(bnp.mean(st(m2), axis=0))], lambda: [rat(np.mean(m2, axis=0))]),
+        ('mean(2-D, axis=1)', lambda: [rat(np.concatenate([np.atleast_1d(c) for c in bnp.mean(st(m2), axis=1)]))], lambda: [rat(np.mean(m2, axis=1))]),
+        ('count_kmers(k=2)', lambda: [fl(count_kmers(st(seqs), k=2).counts)], lambda: [fl(count_kmers(seqs, k=2).counts)]),
+        ('count_kmers(2, axis=None)', lambda: [fl(count_kmers(st(seqs), 2, axis=None).counts)], lambda: [fl(count_kmers(seqs, 2, axis=None).counts)]),
+        ('merged()', lambda: iv_rows(bnp.compute(sa().merged())), lambda: iv_rows(ma.merged())),
+        ('merged(distance=1)', lambda: iv_rows(bnp.compute(sa().merged(distance=1))), lambda: iv_rows(ma.merged(distance=1))),
+        ('merged(3)', lambda: iv_rows(bnp.compute(sa().merged(3))), lambda: iv_rows(ma.merged(3))),
+        ('clip()', lambda: iv_rows(bnp.compute(sa().clip())), lambda: iv_rows(ma.clip())),
+        ("get_location('start').position", lambda: [fl(bnp.compute(sa().get_location('start').position))], lambda: [fl(ma.get_location('start').position)]),
+        ("get_location(where='start').position", lambda: [fl(bnp.compute(sa().get_location(where='start').position))],
+         lambda: [fl(ma.get_location(where='start').position)]),
+    ]
+    out = {'items': []}
+    for label, fs, fm in items:
+        r = []
+        for f in (fs, fm):
+            try:
+                r.append(f())
+            except Exception as e:
+                r.append(_err(e))
+        out['items'].append([label, r[0], r[1]])
     return out
 
 
@@ -500,7 +654,7 @@ def _observe_expr(case, genome, ta, tb, sa, sb, ma, mb, track_rows, mask_rows, r
 
 
 def observe(case):
-    return dict(flat=_observe_flat, rechunk=_observe_rechunk).get(case['kind'], _observe_gen)(case)
+    return dict(flat=_observe_flat, rechunk=_observe_rechunk, big=_observe_big, kw=_observe_kw).get(case['kind'], _observe_gen)(case)
 
 
 # ----------------------------------------------------------------------------- python-side reference (explain / finding signature only)
@@ -574,6 +728,19 @@ def failing_components(case, o):
             for ne, out in o[key]:
                 if _is_err(out) or sum(out, []) != ids or not _sizes_ok(lo, ne, [len(c) for c in out]):
                     bad.append('chunk_%s' % key)
+    elif case['kind'] == 'big':
+        want = [sum(n for r in case['reads'] for x, n in r if x == c) for c in range(4)]
+        for name in ('stream', 'single', 'mem'):
+            if o[name] != want:
+                bad.append('big:' + name)
+    elif case['kind'] == 'kw':
+        for label, s, m in o['items']:
+            if _is_err(s) or _is_err(m) or s != m:
+                bad.append('kw:' + label)
+    elif case['kind'] == 'genwin':
+        for (key, val), q, s, m in o['wruns']:
+            if _is_err(s) or _is_err(m) or s != m:
+                bad.append('win:%s=%s:%s' % (key, val, q))
     elif case['kind'] == 'genexpr':
         for e, q, s, m in o['exprs']:
             if _is_err(s) or _is_err(m) or s != m:
@@ -720,6 +887,8 @@ def _pobs(name, v):
         return 'OValues %s' % _zll(v)
     if name in ('sumall', 'sum0'):
         return 'OList %s' % zl(v)
+    if name == 'ivs':
+        return 'OIvs %s' % clist(['(%s, %s, %s)' % tuple(cz(x) for x in r) for r in v], '(Z * Z * Z)')
     if name == 'mean0':
         if any(r is None for r in v):
             return 'OError'
@@ -753,9 +922,32 @@ def _gen_to_coq(case, o):
             kind = dict(track='mask' if _expr_is_bool(e) else 'pileup', values='values', sum='sum', hist='hist')[q]
             eruns.append('(%s, %s, %s, %s)' % (_texpr(e), qn[q], _pobs(kind, _boolrows(st) if q == 'values' else st),
                                                _pobs(kind, _boolrows(m) if q == 'values' else m)))
-    return ('CGen {| g_sizes := %s; g_a := %s; g_b := %s; g_runs := %s; g_w := %s; g_sruns := %s; g_eruns := %s |}' % (
+    wruns = []
+    if case['kind'] == 'genwin':
+        for (key, val), q, st, m in o['wruns']:
+            arg = '(%s %s)' % ('WFlank' if key == 'flank' else 'WSize', cz(val))
+            kind = dict(windows='ivs', values='values', mean0='mean0')[q]
+            wruns.append('(%s, %s, %s, %s)' % (arg, dict(windows='WWindows', values='WValues', mean0='WMean0')[q], _pobs(kind, st), _pobs(kind, m)))
+    return ('CGen {| g_sizes := %s; g_a := %s; g_b := %s; g_runs := %s; g_w := %s; g_sruns := %s; g_eruns := %s; g_wruns := %s |}' % (
         zl(case['sizes']), chunks(case['a'], case['sa']), chunks(case['b'], case['sb']), clist(runs, '(pipeline * pobs * pobs)'),
-        clist(wchunks, 'list (Z * swin)'), clist(sruns, '(spipeline * pobs * pobs)'), clist(eruns, '(texpr * query * pobs * pobs)')))
+        clist(wchunks, 'list (Z * swin)'), clist(sruns, '(spipeline * pobs * pobs)'), clist(eruns, '(texpr * query * pobs * pobs)'),
+        clist(wruns, '(warg * wquery * pobs * pobs)')))
+
+
+def _big_to_coq(case, o):
+    def runs(r):
+        return clist(['(%s, %s)' % (cz(x), cz(n)) for x, n in r], '(Z * Z)')
+    chunks = clist([clist([runs(r) for r in ch], 'runs_t') for ch in _cut(case['reads'], case['sizes'])], 'list runs_t')
+    vals = [zl([-7] if _is_err(o[k]) else o[k]) for k in ('stream', 'single', 'mem')]
+    return 'CBig {| b_chunks := %s; b_stream := %s; b_single := %s; b_mem := %s |}' % (chunks, vals[0], vals[1], vals[2])
+
+
+def _kw_to_coq(case, o):
+    items = []
+    for i, (label, s, m) in enumerate(o['items']):
+        # an exception on either side is a difference: encode it as lists that cannot be equal
+        items.append('(%s, %s)' % (_zll([[-7, i, 0]] if _is_err(s) else s), _zll([[-7, i, 1]] if _is_err(m) else m)))
+    return 'CKw %s' % clist(items, '(list (list Z) * list (list Z))')
 
 
 def _boolrows(v):
@@ -773,7 +965,7 @@ def _texpr(e):
 
 
 def to_coq(case, o):
-    return dict(flat=_flat_to_coq, rechunk=_rechunk_to_coq).get(case['kind'], _gen_to_coq)(case, o)
+    return dict(flat=_flat_to_coq, rechunk=_rechunk_to_coq, big=_big_to_coq, kw=_kw_to_coq).get(case['kind'], _gen_to_coq)(case, o)
 
 
 # ----------------------------------------------------------------------------- evidence helpers
@@ -787,6 +979,8 @@ def _cut_inside_group(keys, sizes):
 
 
 def nontrivial(case, o):
+    if case['kind'] in ('big', 'kw'):
+        return True
     if case['kind'] == 'rechunk':
         return len(case['sizes']) > 1 and any(sum(case['sizes']) % ne for ne in case['ns'])
     if case['kind'] == 'flat':
@@ -800,17 +994,21 @@ def describe(case, o):
                     sum_n=o.get('sum_n'), groups=o.get('groups'))
     if case['kind'] == 'rechunk':
         return dict(kind='rechunk', chunk_sizes=case['sizes'], chunk_entries=o.get('entries'), chunk_lines=o.get('lines'))
+    if case['kind'] in ('big', 'kw'):
+        return dict(kind=case['kind'], chunk_sizes=case['sizes'], observed=o)
     return dict(kind=case['kind'], chrom_sizes=case['sizes'], intervals=case['a'], windows=case['b'], chunks_a=case['sa'],
                 chunks_b=case['sb'], sum=o.get('sum'), mean0=o.get('mean0'))
 
 
 def distribution(cases, obs):
-    d = dict(flat=0, rechunk=0, gen=0, genmean=0, gensum=0, gensum0=0, genstrand=0, genstrandmean=0, genexpr=0, n_entries={}, n_chunks={}, single_entry_chunks=0, cut_inside_group=0, chromosomes={},
+    d = dict(flat=0, rechunk=0, gen=0, genmean=0, gensum=0, gensum0=0, genstrand=0, genstrandmean=0, genexpr=0, genwin=0, kw=0, big=0, n_entries={}, n_chunks={}, single_entry_chunks=0, cut_inside_group=0, chromosomes={},
              streamed_errors={})
     for c, o in zip(cases, obs):
         d[c['kind']] += 1
         if c['kind'] == 'flat':
             n, sizes, keys = len(c['entries']), c['sizes'], [e[0] for e in c['entries']]
+        elif c['kind'] in ('big', 'kw'):
+            continue
         elif c['kind'] == 'rechunk':
             n, sizes, keys = sum(c['sizes']), c['sizes'], [0] * sum(c['sizes'])
         else:
@@ -832,6 +1030,8 @@ def search(tier, seed, disagreeing):
     """neighbourhood search: every chunking of the disagreeing data sets (bounded), plus fresh thorough-style cases"""
     out = []
     for c in disagreeing[:4]:
+        if c['kind'] in ('big', 'kw'):
+            continue
         if c['kind'] in ('flat', 'rechunk'):
             n = _n_of(c)
             comps = compositions(n) if n <= 9 else [random_composition(random.Random(seed + i), n, 0.5) for i in range(200)]
